@@ -394,6 +394,15 @@ func (sc *SpecScope) call(x *ast.CallExpr) Val {
 		body := n.boolOf(arg(3))
 		sc.err = append(sc.err, n.err...)
 		rng := sAnd(sx("<=", lo, bv), sx("<", bv, hi))
+		// quantify over the absolute heap index when the body reads slice elements at
+		// (+ OFF k): the trigger becomes H(ref, j), which matches any ground read
+		if off := offsetOf(body, bv); off != "" && !strings.Contains(off, "?") {
+			j := bv + "a"
+			if name == "forall" {
+				return vBool(fmt.Sprintf("(forall ((%s Int)) (let ((%s (- %s %s))) %s))", j, bv, j, off, sImp(rng, body)))
+			}
+			return vBool(fmt.Sprintf("(exists ((%s Int)) (let ((%s (- %s %s))) %s))", j, bv, j, off, sAnd(rng, body)))
+		}
 		if name == "forall" {
 			return vBool(fmt.Sprintf("(forall ((%s Int)) %s)", bv, sImp(rng, body)))
 		}
@@ -491,6 +500,13 @@ func (sc *SpecScope) call(x *ast.CallExpr) Val {
 			return vBool("true")
 		}
 		return vBool(c.frameFormula(sc.old, sc.cur, sc.old.alloc, nil))
+	}
+	if sym, ok := c.ghostFns[name]; ok {
+		var as []string
+		for i := range x.Args {
+			as = append(as, sc.intOf(x.Args[i]))
+		}
+		return vInt(sx(sym, as...))
 	}
 	// conversion to a named type: T(x)
 	if t := sc.lookupType(name); t != nil && len(x.Args) == 1 {
@@ -810,4 +826,34 @@ func (c *FnCtx) constVal(v constant.Value, t types.Type) Val {
 		return Val{K: KStr, S: c.strLit(constant.StringVal(v)), T: t}
 	}
 	return Val{K: KInt, S: c.fresh("const", "Int"), T: t}
+}
+
+// offsetOf finds the slice offset OFF when every index sum mentioning bv has the form
+// (+ OFF bv) or (+ OFF (+ bv c)) with the same atomic OFF.
+func offsetOf(body, bv string) string {
+	off := ""
+	rest := body
+	for {
+		i := strings.Index(rest, bv)
+		if i < 0 {
+			break
+		}
+		// look backwards for "(+ ATOM " or "(+ ATOM (+ "
+		pre := rest[:i]
+		pre = strings.TrimSuffix(pre, "(+ ")
+		if j := strings.LastIndex(pre, "(+ "); j >= 0 && !strings.ContainsAny(pre[j+3:], "()") {
+			atom := strings.TrimSpace(pre[j+3:])
+			if atom != "" && !strings.Contains(atom, " ") && atom != "0" {
+				if _, err := strconv.Atoi(atom); err != nil {
+					if off == "" {
+						off = atom
+					} else if off != atom {
+						return ""
+					}
+				}
+			}
+		}
+		rest = rest[i+len(bv):]
+	}
+	return off
 }
